@@ -1,6 +1,7 @@
 from __future__ import annotations
 
 import asyncio
+from contextlib import suppress
 from typing import TYPE_CHECKING, Awaitable, Callable, Iterable
 
 from repid.connections.abc import ConsumerT
@@ -61,6 +62,8 @@ class _RedisConsumer(ConsumerT):
     async def finish(self) -> None:
         if self.consume_task is not None:
             self.consume_task.cancel()
+            with suppress(asyncio.CancelledError):
+                await self.consume_task
         rejects = []
         while self.queue.qsize() > 0:
             key, _, _ = self.queue.get_nowait()
@@ -77,7 +80,13 @@ class _RedisConsumer(ConsumerT):
                 self.pause_lock.release()
             msg = await self.consume_or_none()
             if msg is not None:
-                await self.queue.put(msg)
+                try:
+                    await self.queue.put(msg)
+                except asyncio.CancelledError:
+                    # finished while waiting for room in the buffer: the message was already
+                    # taken from the broker, so hand it back
+                    await asyncio.shield(self.broker.reject(msg[0]))
+                    raise
             else:
                 await asyncio.sleep(self.POLLING_WAIT)
 
